@@ -83,3 +83,40 @@ Print Assumptions C40_qos.
 Print Assumptions C40_retained_then_live.
 Print Assumptions C40_unsub_one.
 Print Assumptions C40_unsub_others.
+
+(* ---------- concurrency dimension (topic index level; files Topics/InlineConc*.v) ----------
+   Inline Subscribe / Unsubscribe / Publish racing with client unsubscribes and retained clears on the same
+   branch of the particle tree.  Model: every index operation, InlineSubscribe's walk + add included, is one
+   atomic step under the root lock (Topics.Trie.t_step); an inline publish observes which handlers are called.
+   For every program (one list per goroutine) and EVERY schedule: the history keeps every goroutine's order,
+   every return value and every set of handlers called is what the plain set of subscriptions gives in that serial
+   order, and the final tree is related to the final set — so after quiescence every inline subscription that was
+   made and not unsubscribed receives every matching publish, and an unsubscribed one receives nothing. *)
+From MV Require Topics.IndexSpec Topics.Trie Topics.TrieRefine Topics.Lin Topics.InlineConc Topics.InlineConcProofs.
+
+Theorem C40_inline_atomic_all_schedules : forall x0 a0 prog (sched : list nat) xf restf h,
+  Topics.TrieRefine.R x0 a0 ->
+  Forall (fun c => Topics.InlineConc.wf_copb c = true) (concat prog) ->
+  Topics.Lin.run_sched Topics.InlineConc.m_step sched x0 prog = (xf, restf, h) ->
+  let serial := map (fun e : nat * Topics.InlineConc.cop * N => snd (fst e)) h in
+  (forall t, Topics.Lin.proj t h ++ nth t restf [] = nth t prog []) /\
+  map snd h = snd (Topics.Lin.seq_run Topics.InlineConc.c_step a0 serial) /\
+  Topics.TrieRefine.R xf (fst (Topics.Lin.seq_run Topics.InlineConc.c_step a0 serial)).
+Proof. exact Topics.InlineConcProofs.inline_atomic_all_schedules. Qed.
+
+(* The split variant (root lock released after the walk, subscription added afterwards) is refuted by the schedule
+   walk / client unsubscribe / add: the subscription lands on a pruned particle and a later publish calls nobody,
+   which no serial order of the specification allows; the run-time checker rejects that observation. *)
+Example C40_split_refuted :
+  (let '(xf, _, _) := Topics.Lin.run_sched Topics.InlineConc.s_step [0; 1; 0]%nat Topics.InlineConcProofs.x_pre
+       [[Topics.InlineConc.SWalk Topics.InlineConcProofs.ab; Topics.InlineConc.SAdd 1 Topics.InlineConcProofs.ab 0];
+        [Topics.InlineConc.SO (Topics.InlineConc.CO (Topics.IndexSpec.OUnsub (tag "c1") Topics.InlineConcProofs.ab))]] in
+   Topics.InlineConc.pub_mask (Topics.Trie.r_in (Topics.Trie.subscribers xf Topics.InlineConcProofs.ab))) = 0 /\
+  snd (Topics.InlineConc.c_step
+         (fst (Topics.Lin.seq_run Topics.InlineConc.c_step Topics.InlineConcProofs.a_pre
+                 [Topics.InlineConc.CO (Topics.IndexSpec.OUnsub (tag "c1") Topics.InlineConcProofs.ab);
+                  Topics.InlineConc.CO (Topics.IndexSpec.OInSub 1 Topics.InlineConcProofs.ab 0)]))
+         (Topics.InlineConc.CPub Topics.InlineConcProofs.ab)) = 1.
+Proof. vm_compute. split; reflexivity. Qed.
+
+Print Assumptions C40_inline_atomic_all_schedules.
